@@ -310,20 +310,13 @@ end
 theorem codec_roundtrip_loops_nobreak (nS nM : Nat) (ts : List Node) (hl : linL ts = true) (hn : noBreakL ts = true)
     (farg : Nat) :
     ∃ bytes, convertTrack nS nM (flatL ts ++ [⟨mds_FINISH, farg⟩]) = .ok bytes ∧
-      ∀ (base mj maxTicks : Nat) (ln lr : Option Nat), (expL nS nM ts).length ≤ maxTicks →
-        ∃ n, ∀ fuel, fuel > n →
-          run bytes base mj maxTicks fuel { pc := 0, lastNote := ln, lastRest := lr } =
-            (expL nS nM ts, .finished) := by
+      ∀ (base mj : Nat) (ln lr : Option Nat), Plays bytes base mj ln lr (expL nS nM ts) := by
   obtain ⟨e1, he1, _, _, _, sem⟩ := list_ok nS nM ts hl hn {}
   refine ⟨e1.out ++ [mds_FINISH], ?_, ?_⟩
   · simp [convertTrack, encAll_append, he1, encAll, encEv_finish, Except.map]
-  · intro base mj maxTicks ln lr hlen
+  · intro base mj ln lr
     obtain ⟨s1, r1, f1, g1⟩ := sem (e1.out ++ [mds_FINISH]) base mj _ [] (List.prefix_append _ _) (good_init ln lr)
     obtain ⟨s2, r2, hfin, ho⟩ := finish_run (base := base) (mj := mj) g1 (f1.calls) (List.prefix_refl _)
-    have ho' : s2.out = (expL nS nM ts).reverse := by simpa using ho
-    obtain ⟨n, hn⟩ := run_of_reach (maxTicks := maxTicks) (r1.trans r2) hfin (by rw [ho']; simpa using hlen)
-    refine ⟨n, fun fuel hf => ?_⟩
-    rw [hn fuel hf, ho']
-    simp
+    exact ⟨s2, r1.trans r2, hfin, by simpa using ho⟩
 
 end Ctrmml.Codec
